@@ -18,7 +18,7 @@ for d in sorted(os.listdir(os.path.join(V, "seeded"))):
     if not os.path.exists(mp):
         continue
     m = json.load(open(mp))
-    if d.endswith("b") or d.endswith("c"):
+    if d[-1] in "bcd":
         n2 += 1
     else:
         n1 += 1
@@ -26,14 +26,14 @@ for d in sorted(os.listdir(os.path.join(V, "seeded"))):
 
 head = """### 0.6 Seeded changes: which check catches which
 
-%d changes (%d of round 1, one per property; %d of rounds 2 and 3, directory names ending in `b` / `c`; several round-3 changes re-discovered earlier ones), each written by a fresh
+%d changes (%d of round 1, one per property; %d of rounds 2-4, directory names ending in `b` / `c` / `d`; many round-3/4 changes re-discovered earlier ones), each written by a fresh
 sub-agent that saw only the property text and a scratch worktree, each confirmed (demo fails with / passes without the
 change; the 3499 stable passes unchanged) before it was kept. **All are reported as VIOLATION by the quick check named in
 their meta.json, with a concrete failing input** (`harness/seed_matrix.sh`). The last column says which part of the check
 catches the change and, where the FIRST version of the check missed it or could only report a broken obligation without a
 failing input, what was strengthened: round 1 — C05, C06, C10 (by C01), C20, C21, C03; round 2 — C15b, C25b, C10b and C06b (missed),
 C03b (missed by C03, caught by C15), C14b and C08b (no failing input at first), C26b (the check hung); round 3 — C28c, C03c, C08c (missed),
-C16c (missed by C16, caught by C15), C19c (no failing input at first).
+C16c (missed by C16, caught by C15), C19c (no failing input at first); round 4 — C20d (missed: the writer's seek was not modelled), C01d (no failing input at first).
 
 | id | change | needs | caught by |
 |---|---|---|---|
